@@ -17,7 +17,8 @@ struct c18_part { uint16_t raw, usr, cut, trim; };
 
 enum {
 	C18_COMPLETE    = 1,  /* every call saw all remaining data: each crossing segment has to be drawn */
-	C18_STRUCT_ONLY = 2   /* non-finite data/range: progress and totals only */
+	C18_STRUCT_ONLY = 2,  /* non-finite data/range: progress and totals only */
+	C18_ENDS_FREE   = 4   /* combined dimensions: nothing is asserted about the first/last drawn point and the fractions */
 };
 
 /*
@@ -31,7 +32,7 @@ enum {
 void c18_check_parts(const char *pfx, const double *v, size_t n, const double *range,
                      const struct c18_part *p, size_t np, const size_t *window, int flags);
 
-/* true when any value or bound is NaN/inf */
+/* true when any value or bound is NaN/inf, or the spread of values and bounds overflows double */
 int c18_nonfinite(const double *v, size_t n, const double *range);
 
 /* number of segments (i,i+1) with exactly one end in range */
